@@ -92,7 +92,7 @@ def sk_operator_norm(
         dim = int(np.round(np.sqrt(dim_xy)))
 
     # Allow the user to enter in a single integer for dimension.
-    if isinstance(dim, int):
+    if isinstance(dim, (int, np.integer)):
         dim = np.array([dim, dim_xy / dim])
         if np.abs(dim[1] - np.round(dim[1])) >= 2 * dim_xy * np.finfo(float).eps:
             raise ValueError("If `dim` is a scalar, it must evenly divide the length of the matrix.")
